@@ -865,7 +865,6 @@ Proof.
       specialize (IH l p (c :: visited) (S steps + n) (S depth) Lp ND' IN').
       destruct IH as [P1 [P2 [P3 [P4 [P5 [P6 [P8 P7]]]]]]]; [cbn [length]; lia|].
       unfold bpost. rewrite Wc in P5. cbn [length] in *. repeat split; try assumption; try lia.
-      intros Hd Hl. apply P8; lia.
     + unfold bpost. cbn [b_fuel_out b_visited b_steps b_depth b_result]. rewrite Wc. cbn [length].
       repeat split; try assumption; try lia.
       intros l' E. inversion E; subst. destruct Sr as [p [Lp [Up Hp]]]. exists p. repeat split; assumption.
@@ -884,7 +883,7 @@ Proof.
   pose proof (binding_post (S (n_manifests st)) root m [] 0 0 L) as P.
   destruct P as [P1 [P2 [P3 [P4 [P5 [P6 [P8 P7]]]]]]]; [constructor | intros x [] | cbn; lia |].
   cbn zeta. pose proof (W_le_refs st _ P2). pose proof (NoDup_incl_len _ _ P2 P3) as LV. rewrite keys_length in LV.
-  cbn [length W] in *. repeat split; try assumption; try lia. apply P8; lia.
+  cbn [length W] in *. repeat split; try assumption; try lia; try (apply P8; lia).
 Qed.
 
 End Binding.
